@@ -103,6 +103,11 @@ func (c *Ctx) skeletonOf(body ast.Node) []string {
 			return
 		case *ast.CallExpr:
 			name := exprStr(c, v.Fun)
+			if name == "verifTrace" {
+				// event-trace hook (build tag verif; an empty function otherwise): instrumentation, not part of
+				// the synchronisation skeleton – its arguments (e.g. a counter read for the log) are not descended into
+				return
+			}
 			interesting := false
 			switch {
 			case name == "close":
